@@ -65,6 +65,8 @@ func checkC02(r *Run) {
 	r.Rule("C02.R2.codec", "pointerCodec.encode and decode lay the five pointer fields out at the same byte ranges, the ranges tile [0, pointerByteSize) exactly", 3)
 	r.Rule("C02.R3.provenance", "composite literals of domain.pointer occur only in Writer.commit, DB.Delete and pointerCodec.decode; in commit offset/size come from the tracked writer's Offset()/Len(); in Delete from fields of existing pointers and the clamped offsets", 5)
 	r.Rule("C02.R4.delete", "channel deletion: removeChannel, then Rename(dir, dir+'-DELETE-'+n) under DB.mu, then Remove of exactly that renamed name; crash-intermediate names are not accepted by the open-time scanners", 6)
+	r.Rule("C02.R6.close", "Writer.Close flushes the index whenever lazily persisted commits are possible: the flush is unconditional or guarded only by configuration fields, or by a writer flag that is never cleared outside Close (a commit that is later rejected must not be able to cancel the flush of earlier commits)", 1)
+	r.Rule("C02.R7.scan", "the open-time scan of data files tolerates a key that has no file yet (the file counter is bumped before the file is created): Stat is reached only behind Exists == true, or its error is filtered before it fails Open", 1)
 	r.Rule("C02.R5.gc", "DB.GarbageCollect persists the whole index after the last garbageCollectFile on every success path; garbageCollectFile rewrites offsets and renames both files inside one idx.mu write section, and removes only the _temp name", 5)
 
 	la := NewLockAnalysis(p, cesiumScope)
@@ -136,6 +138,8 @@ func checkC02(r *Run) {
 	checkChannelDelete(r, p, la)
 	checkGCOrder(r, p, la)
 	checkNameDisjointness(r, p, metaName, metaTmp)
+	checkCloseFlush(r, p)
+	checkScanTolerance(r, p)
 	r.Stats["fs_open_sites"] = nOpen
 	r.Stats["fs_rename_sites"] = nRename
 }
@@ -884,5 +888,172 @@ func checkPrepareStart(r *Run, p *Prog) {
 			ok = true
 		}
 		r.Ob("C02.R2.start", "prepare start in "+cs.Fn.Top().Name, p.Position(cs.Call.Pos()), ok, "start argument is "+types.ExprString(arg)+"; must be idx.persistHead or 0")
+	}
+}
+
+// checkCloseFlush decides C02.R6 on domain.Writer.Close.
+func checkCloseFlush(r *Run, p *Prog) {
+	fn := p.Func(domainPkg, "Writer", "Close")
+	prep := p.Func(domainPkg, "indexPersist", "prepare")
+	if fn == nil || prep == nil {
+		r.Undecide("C02.R6: Writer.Close / indexPersist.prepare not found")
+		return
+	}
+	calls := CallsIn(fn, calleeIs(prep))
+	if len(calls) == 0 {
+		r.Ob("C02.R6.close", "Writer.Close flushes the index", p.Position(fn.Pos()), false, "no call to indexPersist.prepare in Close: commits inside the persist interval are never written")
+		return
+	}
+	// enclosing conditions
+	var conds []ast.Expr
+	ast.Inspect(fn.Body, func(x ast.Node) bool {
+		if ifs, ok := x.(*ast.IfStmt); ok && contains(ifs.Body, calls[0]) {
+			conds = append(conds, ifs.Cond)
+		}
+		return true
+	})
+	if len(conds) == 0 {
+		r.Ob("C02.R6.close", "Writer.Close flushes the index unconditionally", p.Position(calls[0].Pos()), true, "")
+		return
+	}
+	cfgType := p.Pkg(domainPkg).Types.Scope().Lookup("WriterConfig")
+	isConfigField := func(v *types.Var) bool {
+		if cfgType == nil {
+			return false
+		}
+		st, ok := cfgType.Type().Underlying().(*types.Struct)
+		if !ok {
+			return false
+		}
+		for i := 0; i < st.NumFields(); i++ {
+			if st.Field(i) == v {
+				return true
+			}
+		}
+		return false
+	}
+	for _, cond := range conds {
+		for _, atom := range conjuncts(cond) {
+			var fields []*types.Var
+			other := false
+			ast.Inspect(atom, func(x ast.Node) bool {
+				switch v := x.(type) {
+				case *ast.SelectorExpr:
+					if f, ok := fn.Pkg.TypesInfo.Uses[v.Sel].(*types.Var); ok && f.IsField() {
+						fields = append(fields, f)
+					}
+				case *ast.CallExpr:
+					// a method call on a field reads that field; anything else is unknown
+					if sel, ok := ast.Unparen(v.Fun).(*ast.SelectorExpr); ok {
+						if inner, ok := ast.Unparen(sel.X).(*ast.SelectorExpr); ok {
+							if f, ok := fn.Pkg.TypesInfo.Uses[inner.Sel].(*types.Var); ok && f.IsField() {
+								return true
+							}
+						}
+					}
+					other = true
+				}
+				return true
+			})
+			good, detail := true, "configuration only"
+			if other || len(fields) == 0 {
+				r.Undecide("C02.R6: the flush guard %s in Writer.Close is not a test of fields (unknown idiom)", types.ExprString(atom))
+				continue
+			}
+			for _, f := range fields {
+				if isConfigField(f) {
+					continue
+				}
+				// a writer state flag: every assignment outside Close must be '= true'
+				for _, g := range p.FuncsOfPkg(domainPkg) {
+					if g.Body == nil || g.Top() == fn {
+						continue
+					}
+					inspectNoLit(g.Body, func(x ast.Node) bool {
+						as, ok := x.(*ast.AssignStmt)
+						if !ok {
+							return true
+						}
+						for i, l := range as.Lhs {
+							sel, ok := ast.Unparen(l).(*ast.SelectorExpr)
+							if !ok || g.Pkg.TypesInfo.Uses[sel.Sel] != f || i >= len(as.Rhs) {
+								continue
+							}
+							if id, ok := ast.Unparen(as.Rhs[i]).(*ast.Ident); ok && id.Name == "true" {
+								continue
+							}
+							good = false
+							detail = fmt.Sprintf("the flush is guarded by the state flag %s, which %s assigns %s at %s: a commit that is due to persist but is then rejected clears the flag and Close skips flushing the earlier commits", f.Name(), g.Name, types.ExprString(as.Rhs[i]), posOf(p, as))
+						}
+						return true
+					})
+				}
+			}
+			r.Ob("C02.R6.close", "flush guard "+types.ExprString(atom)+" of Writer.Close", p.Position(atom.Pos()), good, detail)
+		}
+	}
+}
+
+// checkScanTolerance decides C02.R7 on fileController.scanUnopenedFiles.
+func checkScanTolerance(r *Run, p *Prog) {
+	fn := p.Func(domainPkg, "fileController", "scanUnopenedFiles")
+	if fn == nil {
+		r.Undecide("C02.R7: fileController.scanUnopenedFiles not found")
+		return
+	}
+	c := p.CFG(fn)
+	var stats []*ast.CallExpr
+	var existsVars = map[types.Object]bool{}
+	inspectNoLit(fn.Body, func(x ast.Node) bool {
+		switch v := x.(type) {
+		case *ast.CallExpr:
+			if f := CalleeFunc(fn, v); f != nil && f.Name() == "Stat" {
+				stats = append(stats, v)
+			}
+		case *ast.AssignStmt:
+			if len(v.Rhs) == 1 {
+				if call, ok := ast.Unparen(v.Rhs[0]).(*ast.CallExpr); ok {
+					if f := CalleeFunc(fn, call); f != nil && f.Name() == "Exists" && len(v.Lhs) >= 1 {
+						if o := objOf(fn, v.Lhs[0]); o != nil {
+							existsVars[o] = true
+						}
+					}
+				}
+			}
+		}
+		return true
+	})
+	if len(stats) == 0 {
+		r.ObTrivial("C02.R7.scan", "scanUnopenedFiles does not Stat files", p.Position(fn.Pos()), true, "")
+		return
+	}
+	hasFilter := false
+	inspectNoLit(fn.Body, func(x ast.Node) bool {
+		if call, ok := x.(*ast.CallExpr); ok {
+			if f := CalleeFunc(fn, call); f != nil && (f.Name() == "Is" || f.Name() == "IsNotExist") {
+				hasFilter = true
+			}
+		}
+		return true
+	})
+	established := c.EdgesEstablishing(func(atom ast.Expr, val bool) bool {
+		o := objOf(fn, atom)
+		return o != nil && existsVars[o] && val
+	})
+	// edges leaving the "exists" tests the other way are blocked; a Stat reachable without
+	// crossing an established edge is unguarded
+	for i, st := range stats {
+		sp, ok := c.Locate(st)
+		if !ok {
+			r.Undecide("C02.R7: Stat call not located")
+			continue
+		}
+		guarded := false
+		if len(established) > 0 {
+			_, vis := c.ReachAvoiding([]Point{c.Entry()}, established, nil)
+			guarded = !vis[sp]
+		}
+		r.Ob("C02.R7.scan", fmt.Sprintf("Stat #%d in scanUnopenedFiles is reached only for files that exist", i+1), p.Position(st.Pos()), guarded || hasFilter,
+			"newWriter persists the bumped file counter before it creates the file; after a crash between the two a key <= counter has no file, and an unguarded Stat error makes every later Open of the channel fail")
 	}
 }
